@@ -142,6 +142,10 @@ def c15_scenario(bins, idx, kill_point, flt, rng, cancel=False):
             for t in tnames:
                 steps = [{"op": "out", "text": "%s out 1\n" % t}, {"op": "out", "stream": "stderr", "text": "%s err 1\n" % t},
                          {"op": "touch", "path": "%s-printed1-%s" % (tag, t)}]
+                if kill_point == "stalled_long" and t == "app2":
+                    # megabytes on both streams: more than the socket between run and listener holds
+                    for sname in ("stdout", "stderr"):
+                        steps.append({"op": "out", "stream": sname, "text": "".join("%s %s bulk %d %s\n" % (t, sname, i, "B" * 65000) for i in range(40))})
                 if cancel:
                     if t == "app":
                         steps += [{"op": "wait", "paths": ["%s-go" % tag], "timeout_ms": 8000}, {"op": "sleep", "ms": 2600}, {"op": "exit", "code": 3}]
@@ -156,6 +160,12 @@ def c15_scenario(bins, idx, kill_point, flt, rng, cancel=False):
                     steps.append({"op": "sleep", "ms": 560 if t == "app" else 40})
                     steps.append({"op": "out", "text": "%s out %d\n" % (t, i)})
                     steps.append({"op": "out", "stream": "stderr", "text": "%s err %d\n" % (t, i)})
+                # some output is not text at all (bytes that are not valid UTF-8): what is stored is what was written
+                if idx % 3 == 1 and t != "lib":
+                    import base64
+                    steps.append({"op": "out", "stream": "stdout" if t == "app" else "stderr",
+                                  "b64": base64.b64encode(b"%s raw \xff\xfe \xc3\x28 \xed\xa0\x80 bytes\n" % t.encode()).decode()})
+                    steps.append({"op": "out", "text": "%s out after raw\n" % t})
                 # the output of some tasks ends in the middle of a line (no trailing newline), on either stream
                 if (idx + len(t)) % 2 == 0:
                     steps.append({"op": "out", "text": "%s out unterminated" % t})
@@ -200,6 +210,17 @@ def c15_scenario(bins, idx, kill_point, flt, rng, cancel=False):
                 os.killpg(lst.p.pid, signal.SIGSTOP)
                 time.sleep(0.9)           # at least one flush is written to the socket and stays unread
                 lst.kill()
+            if way == "killed" and kill_point == "stalled_long":
+                # the listener stays attached but reads nothing for longer than any patience the run might have with it
+                m = fx.marker("%s-printed1-app" % way)
+                deadline = time.time() + 20
+                while not os.path.exists(m) and time.time() < deadline and p.poll() is None:
+                    time.sleep(0.005)
+                os.killpg(lst.p.pid, signal.SIGSTOP)
+                with open(go, "w") as f:
+                    f.write("go")
+                time.sleep(33.0)
+                os.killpg(lst.p.pid, signal.SIGCONT)
             if way == "killed" and kill_point == "between_groups":
                 m = fx.marker("ended-%s" % fx.key_of("app2", "build"))
                 deadline = time.time() + 20
@@ -289,7 +310,7 @@ def c20_scenario(bins, idx, nt, flt, rng, heavy=False, stall=False):
             while os.path.getsize(lst.path) < 400 and time.time() < deadline and pr.poll() is None:
                 time.sleep(0.01)
             os.killpg(lst.p.pid, signal.SIGSTOP)
-            time.sleep(3.4)
+            time.sleep(3.4 if stall is True else float(stall))      # however long: the run waits, nothing is given up
             os.killpg(lst.p.pid, signal.SIGCONT)
             try:
                 so, se = pr.communicate(timeout=170)
@@ -367,6 +388,8 @@ def run(pid, tier):
                     jobs.append(("c15", n, kp, f))
                     n += 1
         jobs.append(("c15", n, "mid_output", {"stdout": True, "stderr": True, "targets": ["app2"]}))
+        for k in range(1 if tier == "quick" else 2):
+            jobs.append(("c15", 500 + k, "stalled_long", {"stdout": True, "stderr": True} if k == 0 else {"stdout": True, "targets": ["app2"]}))
         # a failing task cancels a sibling that is still running: unfiltered listener, a filter that excludes the
         # cancelled task, a listener that dies early
         for kp, f in (("before_run", {"stdout": True, "stderr": True}), ("mid_output", {"stdout": True, "stderr": True, "targets": ["app"]}),
@@ -379,8 +402,8 @@ def run(pid, tier):
         for i in range(n):
             jobs.append(("c20", i, sizes[i % len(sizes)], FILTERS[i % len(FILTERS)]))
     if pid == "C20":
-        for k in range(1 if tier == "quick" else 8):
-            jobs.append(("c20stall", 1001 + 2 * k, 4 + k % 3, FILTERS[0 if k % 2 == 0 else 1]))
+        for k in range(2 if tier == "quick" else 8):
+            jobs.append(("c20stall", 1001 + 2 * k, 4 + k % 3, FILTERS[0 if k % 2 == 0 else 1], (3.4, 7.5, 12.0, 33.0)[k % 4]))
     def one(j):
         rr = random.Random(chk.seed * 53 + j[1])
         if j[0] == "c15":
@@ -388,7 +411,7 @@ def run(pid, tier):
         if j[0] == "c15cancel":
             return c15_scenario(bins, j[1], j[2], j[3], rr, cancel=True)
         if j[0] == "c20stall":
-            return c20_scenario(bins, j[1], j[2], j[3], rr, heavy=True, stall=True)
+            return c20_scenario(bins, j[1], j[2], j[3], rr, heavy=True, stall=j[4])
         return c20_scenario(bins, j[1], j[2], j[3], rr, heavy=(j[1] % 4 == 1))
     with ThreadPoolExecutor(max_workers=8) as ex:
         recs = list(ex.map(one, jobs))
